@@ -27,6 +27,7 @@ static int DV_getType(const void *dv) { return ((const struct dvobj*)dv)->type; 
 static const XMLCh* DV_getTypeLocalName(const void *dv) { return ((const struct dvobj*)dv)->localName; }
 #define DatatypeValidatorFactory_getBuiltInRegistry() ((void*)0)
 static void* REG_get(void *reg, const XMLCh *name) { return (name == BUILTIN_NAME && name != 0) ? (void*)&BUILTIN_DV : (void*)0; }
+static bool REG_containsKey(void *reg, const XMLCh *name) { return name == BUILTIN_NAME && name != 0; }   /* not used by the code as it stands: lets a name-only test be judged */
 #define JANITOR_XMLCh(name, p, mm) const XMLCh *name = (p); (void)name
 /* class tag of the dynamic type */
 #define DV_CASE_(T) case T: return TG_OBJ_##T##DatatypeValidator;
@@ -41,6 +42,7 @@ method serEng.writeString => ENG_writeString
 method dv->getTypeLocalName => DV_getTypeLocalName
 method dv->getType => DV_getType
 method DatatypeValidatorFactory_getBuiltInRegistry()->get => REG_get
+method DatatypeValidatorFactory_getBuiltInRegistry()->containsKey => REG_containsKey
 @*/
 /*@extract src/xercesc/validators/datatype/DatatypeValidator.cpp DatatypeValidator::loadDV
 sub* ArrayJanitor<XMLCh>\s+(\w+)\( => JANITOR_XMLCh(\1, 
